@@ -14,6 +14,9 @@ Property theorems over `PdModel.Determinism`:
   `projectname_counterexample_old`, `projectname_old_depends_on_enumeration`.
 * `keyed_writes_invariant` — static files written from an unsorted template listing.
 * `rerun_idempotent`, `output_independent_of_old_content` — the output directory.
+* `sortedWith_perm_invariant`, `sortedWith_stable`, per-key theorems (`lc_order_invariant`,
+  `alpha_order_invariant_partial` + `alpha_tie_counterexample`, `source_never_mixed`, …),
+  `unmaskedAttrs_enum_invariant` — the sort keys of the writers and the inherited-member lists.
 * `buildtime_function_of_inputs`, `buildtime_epoch_zero`, … — the footer time is a function of
   (SOURCE_DATE_EPOCH, --buildtime) whenever either is set.
 -/
@@ -925,5 +928,312 @@ theorem buildtime_clock_when_unset (now : Int) : buildTime now .unset .notGiven 
 
 /-- the same refusal in every run: a variable that is not a number is an error whatever else is given -/
 theorem buildtime_notInt_refused (now : Int) (opt : OptTime) : buildTime now .notInt opt = .exitError := rfl
+
+/-! ## presentation order: the sort keys of the writers -/
+
+/-- the three laws that make `sorted(key=...)` with an injective key independent of the input order -/
+structure IsOrder {κ : Type} (le : κ → κ → Bool) : Prop where
+  total : ∀ a b, (le a b || le b a) = true
+  trans : ∀ a b c, le a b = true → le b c = true → le a c = true
+  antisymm : ∀ a b, le a b = true → le b a = true → a = b
+
+theorem intLe_isOrder : IsOrder intLe where
+  total a b := by simp only [intLe, Bool.or_eq_true, decide_eq_true_eq]; omega
+  trans a b c := by simp only [intLe, decide_eq_true_eq]; omega
+  antisymm a b := by simp only [intLe, decide_eq_true_eq]; omega
+
+theorem lexLe_isOrder : IsOrder lexLe := ⟨lexLe_total, lexLe_trans, lexLe_antisymm⟩
+
+theorem pairLe_iff {α β : Type} (leA : α → α → Bool) (leB : β → β → Bool) (x y : α × β) :
+    pairLe leA leB x y = true ↔
+      (leA x.1 y.1 = true ∧ leA y.1 x.1 = false) ∨ (leA x.1 y.1 = true ∧ leA y.1 x.1 = true ∧ leB x.2 y.2 = true) := by
+  unfold pairLe
+  cases h1 : leA x.1 y.1 <;> cases h2 : leA y.1 x.1 <;> simp
+
+theorem pairLe_isOrder {α β : Type} {leA : α → α → Bool} {leB : β → β → Bool}
+    (hA : IsOrder leA) (hB : IsOrder leB) : IsOrder (pairLe leA leB) where
+  total x y := by
+    have ht := hA.total x.1 y.1
+    have hb := hB.total x.2 y.2
+    simp only [Bool.or_eq_true, pairLe_iff] at *
+    cases h1 : leA x.1 y.1 <;> cases h2 : leA y.1 x.1 <;> simp_all
+  trans x y z hxy hyz := by
+    rw [pairLe_iff] at *
+    rcases hxy with ⟨a1, a2⟩ | ⟨a1, a2, a3⟩ <;> rcases hyz with ⟨b1, b2⟩ | ⟨b1, b2, b3⟩
+    · left
+      refine ⟨hA.trans _ _ _ a1 b1, ?_⟩
+      cases h : leA z.1 x.1 with
+      | false => rfl
+      | true => have := hA.trans _ _ _ h a1; simp_all
+    · left
+      refine ⟨hA.trans _ _ _ a1 b1, ?_⟩
+      cases h : leA z.1 x.1 with
+      | false => rfl
+      | true => have := hA.trans _ _ _ b1 h; simp_all
+    · left
+      refine ⟨hA.trans _ _ _ a1 b1, ?_⟩
+      cases h : leA z.1 x.1 with
+      | false => rfl
+      | true => have := hA.trans _ _ _ h a1; simp_all
+    · right
+      exact ⟨hA.trans _ _ _ a1 b1, hA.trans _ _ _ b2 a2, hB.trans _ _ _ a3 b3⟩
+  antisymm x y hxy hyx := by
+    rw [pairLe_iff] at *
+    rcases hxy with ⟨a1, a2⟩ | ⟨a1, a2, a3⟩ <;> rcases hyx with ⟨b1, b2⟩ | ⟨b1, b2, b3⟩
+    · simp_all
+    · simp_all
+    · simp_all
+    · exact Prod.ext (hA.antisymm _ _ a1 a2) (hB.antisymm _ _ a3 b3)
+
+theorem thirdLe_isOrder : IsOrder thirdLe where
+  total a b := by
+    match a, b with
+    | .num x, .num y => simp only [thirdLe, Bool.or_eq_true, decide_eq_true_eq]; omega
+    | .str x, .str y => exact lexLe_total x y
+    | .num _, .str _ => rfl
+    | .str _, .num _ => rfl
+  trans a b c := by
+    match a, b, c with
+    | .num x, .num y, .num z => simp only [thirdLe, decide_eq_true_eq]; omega
+    | .str x, .str y, .str z => exact lexLe_trans x y z
+    | .num _, .num _, .str _ => intros; rfl
+    | .num _, .str _, .str _ => intros; rfl
+    | .num _, .str _, .num _ => intro _ h; simp [thirdLe] at h
+    | .str _, .num _, _ => intro h; simp [thirdLe] at h
+    | .str _, .str _, .num _ => intro _ h; simp [thirdLe] at h
+  antisymm a b := by
+    match a, b with
+    | .num x, .num y =>
+      simp only [thirdLe, decide_eq_true_eq, Third.num.injEq]; omega
+    | .str x, .str y =>
+      intro h1 h2
+      rw [lexLe_antisymm x y h1 h2]
+    | .num _, .str _ => intro _ h; simp [thirdLe] at h
+    | .str _, .num _ => intro h; simp [thirdLe] at h
+
+theorem alphaLe_isOrder : IsOrder alphaLe := pairLe_isOrder intLe_isOrder (pairLe_isOrder intLe_isOrder lexLe_isOrder)
+theorem sourceLe_isOrder : IsOrder sourceLe := pairLe_isOrder intLe_isOrder (pairLe_isOrder intLe_isOrder thirdLe_isOrder)
+theorem lcLe_isOrder : IsOrder lcLe := pairLe_isOrder lexLe_isOrder lexLe_isOrder
+
+/-! ### `sorted(key=...)` -/
+
+/-- **Key injective on the list ⇒ the sorted list does not depend on the order of the input.** -/
+theorem sortedWith_perm_invariant {α κ : Type} {le : κ → κ → Bool} (ho : IsOrder le) (key : α → κ)
+    {l₁ l₂ : List α} (h : l₁.Perm l₂) (hinj : ∀ a ∈ l₁, ∀ b ∈ l₁, key a = key b → a = b) :
+    sortedWith le key l₁ = sortedWith le key l₂ := by
+  unfold sortedWith
+  apply List.Perm.eq_of_pairwise (le := fun a b => le (key a) (key b) = true)
+  · intro a b ha hb hab hba
+    have ha' : a ∈ l₁ := (List.mergeSort_perm l₁ _).mem_iff.mp ha
+    have hb' : b ∈ l₁ := h.mem_iff.mpr ((List.mergeSort_perm l₂ _).mem_iff.mp hb)
+    exact hinj a ha' b hb' (ho.antisymm _ _ hab hba)
+  · exact List.pairwise_mergeSort (le := fun a b => le (key a) (key b))
+      (fun a b c => ho.trans (key a) (key b) (key c)) (fun a b => ho.total (key a) (key b)) l₁
+  · exact List.pairwise_mergeSort (le := fun a b => le (key a) (key b))
+      (fun a b c => ho.trans (key a) (key b) (key c)) (fun a b => ho.total (key a) (key b)) l₂
+  · exact (List.mergeSort_perm l₁ _).trans (h.trans (List.mergeSort_perm l₂ _).symm)
+
+/-- the result is a permutation of the input, in non-decreasing key order -/
+theorem sortedWith_perm {α κ : Type} (le : κ → κ → Bool) (key : α → κ) (l : List α) :
+    (sortedWith le key l).Perm l := List.mergeSort_perm l _
+
+theorem sortedWith_sorted {α κ : Type} {le : κ → κ → Bool} (ho : IsOrder le) (key : α → κ) (l : List α) :
+    (sortedWith le key l).Pairwise (fun a b => le (key a) (key b) = true) :=
+  List.pairwise_mergeSort (le := fun a b => le (key a) (key b))
+    (fun a b c => ho.trans (key a) (key b) (key c)) (fun a b => ho.total (key a) (key b)) l
+
+/-- **Stability**: two elements with the same key come out in the order they went in — so where a
+key is not injective, the order of the tied elements is the order of the INPUT list. -/
+theorem sortedWith_stable {α κ : Type} {le : κ → κ → Bool} (ho : IsOrder le) (key : α → κ)
+    (a b : α) (l : List α) (hk : key a = key b) (hsub : [a, b].Sublist l) :
+    [a, b].Sublist (sortedWith le key l) := by
+  unfold sortedWith
+  apply List.pair_sublist_mergeSort (le := fun a b => le (key a) (key b))
+    (fun a b c => ho.trans (key a) (key b) (key c)) (fun a b => ho.total (key a) (key b)) _ hsub
+  rw [hk]
+  have := ho.total (key b) (key b)
+  simpa using this
+
+/-- a tie, the two input orders, two outputs: with a non-injective key the output DOES depend on the
+input order -/
+theorem sortedWith_tie_depends_on_input {α κ : Type} {le : κ → κ → Bool} (ho : IsOrder le) (key : α → κ)
+    (a b : α) (hk : key a = key b) (hab : a ≠ b) :
+    sortedWith le key [a, b] ≠ sortedWith le key [b, a] := by
+  have hrefl : ∀ k, le k k = true := fun k => by simpa using ho.total k k
+  have h1 : sortedWith le key [a, b] = [a, b] := by
+    unfold sortedWith
+    apply List.mergeSort_of_pairwise
+    simp [hk, hrefl]
+  have h2 : sortedWith le key [b, a] = [b, a] := by
+    unfold sortedWith
+    apply List.mergeSort_of_pairwise
+    simp [hk, hrefl]
+  rw [h1, h2]
+  intro h
+  exact hab (by simpa using (List.cons.inj h).1)
+
+/-! ### the keys of the writers: which are injective on what they sort -/
+
+/-- `_lckey` holds the full name itself: injective on objects with distinct full names (the objects
+of one `allobjects`) -/
+theorem lcKey_injective (a b : Obj) (h : lcKey a = lcKey b) : a.full = b.full := by
+  simp only [lcKey, Prod.mk.injEq] at h
+  exact h.2
+
+/-- **classIndex subclass lists, nameIndex same-name lists** (`sorted(..., key=_lckey)`): the order
+shown does not depend on the order in which the objects were collected -/
+theorem lc_order_invariant {l₁ l₂ : List Obj} (h : l₁.Perm l₂)
+    (hdistinct : ∀ a ∈ l₁, ∀ b ∈ l₁, a.full = b.full → a = b) : sortedLc l₁ = sortedLc l₂ :=
+  sortedWith_perm_invariant lcLe_isOrder lcKey h
+    (fun a ha b hb hk => hdistinct a ha b hb (lcKey_injective a b hk))
+
+/-- **undoccedSummary** (`key=fullName`) -/
+theorem full_order_invariant {l₁ l₂ : List Obj} (h : l₁.Perm l₂)
+    (hdistinct : ∀ a ∈ l₁, ∀ b ∈ l₁, a.full = b.full → a = b) : sortedFull l₁ = sortedFull l₂ :=
+  sortedWith_perm_invariant lexLe_isOrder fullKey h hdistinct
+
+/-- **nameIndex names** (`key=(x.lower(), x)`) — distinct strs (dict keys) -/
+theorem names_order_invariant {l₁ l₂ : List Str} (h : l₁.Perm l₂)
+    (hdistinct : ∀ a ∈ l₁, ∀ b ∈ l₁, a.s = b.s → a = b) : sortedNames l₁ = sortedNames l₂ :=
+  sortedWith_perm_invariant lcLe_isOrder nameKey h
+    (fun a ha b hb hk => hdistinct a ha b hb (by simp only [nameKey, Prod.mk.injEq] at hk; exact hk.2))
+
+/-- **member / module tables, alphabetical** (`util.alphabetical_order_func`).  Full statement
+("independent of the input order for objects with distinct full names") is FALSE: the key holds the
+LOWERED name only.  Proved when no two objects of the list share privacy, kind and lowered name. -/
+theorem alpha_order_invariant_partial {l₁ l₂ : List Obj} (h : l₁.Perm l₂)
+    (hdistinct : ∀ a ∈ l₁, ∀ b ∈ l₁, alphaKey a = alphaKey b → a = b) : sortedAlpha l₁ = sortedAlpha l₂ :=
+  sortedWith_perm_invariant alphaLe_isOrder alphaKey h hdistinct
+
+/-- sufficient: lowered full names distinct -/
+theorem alpha_order_invariant_of_lower_distinct {l₁ l₂ : List Obj} (h : l₁.Perm l₂)
+    (hdistinct : ∀ a ∈ l₁, ∀ b ∈ l₁, a.lowerFull = b.lowerFull → a = b) : sortedAlpha l₁ = sortedAlpha l₂ :=
+  alpha_order_invariant_partial h (fun a ha b hb hk => hdistinct a ha b hb (by
+    simp only [alphaKey, Prod.mk.injEq] at hk; exact hk.2.2))
+
+def objF : Obj := { privacy := 2, kind := some 400, full := [109, 46, 70], lowerFull := [109, 46, 102], line := 1, isModule := false }
+def objf : Obj := { privacy := 2, kind := some 400, full := [109, 46, 102], lowerFull := [109, 46, 102], line := 2, isModule := false }
+
+/-- functions `m.F` and `m.f`: same key, the table shows them in the order of the input -/
+theorem alpha_tie_counterexample : alphaKey objF = alphaKey objf ∧ objF.full ≠ objf.full ∧
+    sortedAlpha [objF, objf] ≠ sortedAlpha [objf, objF] :=
+  ⟨by decide, by decide, sortedWith_tie_depends_on_input alphaLe_isOrder alphaKey objF objf (by decide) (by decide)⟩
+
+/-- the tied elements of the alphabetical tables keep the order of the input (`contents` order) -/
+theorem alpha_ties_keep_input_order (a b : Obj) (l : List Obj) (hk : alphaKey a = alphaKey b)
+    (hsub : [a, b].Sublist l) : [a, b].Sublist (sortedAlpha l) :=
+  sortedWith_stable alphaLe_isOrder alphaKey a b l hk hsub
+
+/-- **member tables in source order** (`util.source_order_func`): proved when no two objects share
+privacy, kind and line (modules: lowered name) -/
+theorem source_order_invariant_partial {l₁ l₂ : List Obj} (h : l₁.Perm l₂)
+    (hdistinct : ∀ a ∈ l₁, ∀ b ∈ l₁, sourceKey a = sourceKey b → a = b) :
+    sortedWith sourceLe sourceKey l₁ = sortedWith sourceLe sourceKey l₂ :=
+  sortedWith_perm_invariant sourceLe_isOrder sourceKey h hdistinct
+
+def objFirst : Obj := { privacy := 2, kind := some 300, full := [66, 46, 97], lowerFull := [98, 46, 97], line := 2, isModule := false }
+def objSecond : Obj := { privacy := 2, kind := some 300, full := [66, 46, 98], lowerFull := [98, 46, 98], line := 2, isModule := false }
+
+/-- `first = second = 0` on one line: same source key -/
+theorem source_tie_counterexample : sourceKey objFirst = sourceKey objSecond ∧
+    sortedWith sourceLe sourceKey [objFirst, objSecond] ≠ sortedWith sourceLe sourceKey [objSecond, objFirst] :=
+  ⟨by decide, sortedWith_tie_depends_on_input sourceLe_isOrder sourceKey objFirst objSecond (by decide) (by decide)⟩
+
+theorem source_ties_keep_input_order (a b : Obj) (l : List Obj) (hk : sourceKey a = sourceKey b)
+    (hsub : [a, b].Sublist l) : [a, b].Sublist (sortedWith sourceLe sourceKey l) :=
+  sortedWith_stable sourceLe_isOrder sourceKey a b l hk hsub
+
+/-- what every real `Documentable` satisfies: modules and packages, and only they, have the kinds
+MODULE (900) / PACKAGE (1000) -/
+def KindMatchesType (o : Obj) : Prop := o.isModule = true ↔ (o.kind = some 900 ∨ o.kind = some 1000)
+
+theorem isModule_iff_negKind (o : Obj) (h : KindMatchesType o) :
+    o.isModule = true ↔ negKind o = -900 := by
+  unfold KindMatchesType at h
+  rw [h]
+  unfold negKind mapKind
+  cases o.kind with
+  | none => simp
+  | some k =>
+    simp only [Option.some.injEq]
+    by_cases e : k = 1000
+    · simp [e]
+    · simp only [e, if_false, or_false]
+      constructor
+      · intro hk; rw [hk]; rfl
+      · intro hk
+        have : Int.ofNat k = 900 := by omega
+        exact Int.ofNat.inj this
+
+/-- **`source_order_func` never makes Python compare a str with an int**: two objects whose keys agree
+on privacy and kind are both modules or both not -/
+theorem source_never_mixed (a b : Obj) (ha : KindMatchesType a) (hb : KindMatchesType b) :
+    sourceComparable a b = true := by
+  unfold sourceComparable
+  by_cases h1 : (sourceKey a).1 = (sourceKey b).1
+  · by_cases h2 : (sourceKey a).2.1 = (sourceKey b).2.1
+    · have hk : negKind a = negKind b := h2
+      have hiff : a.isModule = true ↔ b.isModule = true := by
+        rw [isModule_iff_negKind a ha, isModule_iff_negKind b hb, hk]
+      have hm : a.isModule = b.isModule := by
+        cases ham : a.isModule <;> cases hbm : b.isModule <;> simp_all
+      simp [hm]
+    · simp [h2]
+  · simp [h1]
+
+/-- hence `sorted(objs, key=source_order_func)` is defined for every list of real objects -/
+theorem sortedSource_defined (objs : List Obj) (h : ∀ o ∈ objs, KindMatchesType o) :
+    sortedSource? objs = some (sortedWith sourceLe sourceKey objs) := by
+  unfold sortedSource?
+  have : (objs.all fun a => objs.all fun b => sourceComparable a b) = true := by
+    simp only [List.all_eq_true]
+    intro a ha b hb
+    exact source_never_mixed a b (h a ha) (h b hb)
+  simp [this]
+
+/-- **classIndex roots, "implements" lists** (`key=lambda x: x.lower()`): proved when the lowered strs
+are distinct; two names that differ in case only keep the input (dict) order -/
+theorem lower_order_invariant_partial {l₁ l₂ : List Str} (h : l₁.Perm l₂)
+    (hdistinct : ∀ a ∈ l₁, ∀ b ∈ l₁, a.lower = b.lower → a = b) : sortedLower l₁ = sortedLower l₂ :=
+  sortedWith_perm_invariant lexLe_isOrder lowerKey h hdistinct
+
+theorem lower_tie_counterexample :
+    sortedLower [⟨[101, 46, 70], [101, 46, 102]⟩, ⟨[101, 46, 102], [101, 46, 102]⟩] ≠
+      sortedLower [⟨[101, 46, 102], [101, 46, 102]⟩, ⟨[101, 46, 70], [101, 46, 102]⟩] :=
+  sortedWith_tie_depends_on_input lexLe_isOrder lowerKey _ _ rfl (by decide)
+
+/-! ### inherited members -/
+
+/-- the set `maybe_masking` is only asked `in`: any two enumerations give the same members -/
+theorem unmaskedAttrs_enum_invariant (first : List Member) {m₁ m₂ : List Name} (h : m₁.Perm m₂) :
+    unmaskedAttrsWith first m₁ = unmaskedAttrsWith first m₂ := by
+  unfold unmaskedAttrsWith
+  congr 1
+  funext o
+  have : m₁.contains o.name = m₂.contains o.name := by
+    rw [Bool.eq_iff_iff]
+    simp only [List.contains_iff_mem]
+    exact h.mem_iff
+  rw [this]
+
+/-- … and they come in the order of the defining class's `contents` (what a rewrite through a set
+difference loses) -/
+theorem unmaskedAttrs_in_contents_order (first : List Member) (masking : List Name) :
+    (unmaskedAttrsWith first masking).Sublist first := List.filter_sublist
+
+theorem unmaskedAttrs_no_indexError (mro : List (List Member)) :
+    ∀ chain ∈ nestedBases mro, unmaskedAttrs chain ≠ .indexError := by
+  intro chain hc
+  simp only [nestedBases, List.mem_map, List.mem_range] at hc
+  obtain ⟨i, hi, rfl⟩ := hc
+  cases hm : (List.take (i + 1) mro).reverse with
+  | nil =>
+    have : (List.take (i + 1) mro).length = 0 := by
+      have := congrArg List.length hm
+      simpa using this
+    simp only [List.length_take] at this
+    omega
+  | cons x xs => simp [unmaskedAttrs]
+
 
 end Determinism
